@@ -37,8 +37,8 @@ func C06_RecoverRevokes() {
 	if panicked || len(f.w.ErrH.Errs) > 0 {
 		return
 	}
-	if time.Now().UTC().After(a.u.RecoverTokenExpiry) {
-		return // not (surely) inside the validity period: C05's subject
+	if !time.Now().UTC().Before(a.u.RecoverTokenExpiry) {
+		return // not (surely) strictly inside the validity period: C05's subject
 	}
 	verif.Reach("recovery-succeeded")
 	post := f.w.Store.Get(a.pid)
